@@ -135,12 +135,13 @@ class TlcResult:
             re.findall(r"Action property (\S+) is violated", out)
         self.ok = (rc == 0 and not self.errors)
         self.viol = []
-        for m in re.finditer(r'^<<"VIOL", (\d+), (\d+), \{([^}]*)\}, "([^"]*)">>$', out, re.M):
+        # TLC wraps long tuples over several lines
+        for m in re.finditer(r'<<\s*"VIOL",\s*(\d+),\s*(\d+),\s*\{([^}]*)\},\s*"([^"]*)"\s*>>', out):
             props = [x.strip().strip('"') for x in m.group(3).split(",") if x.strip()]
             self.viol.append({"run": int(m.group(1)), "line": int(m.group(2)),
                               "props": props, "kind": m.group(4)})
         self.notes = []
-        for m in re.finditer(r'^<<"DRIFT", (\d+), (\d+), "([^"]*)">>$', out, re.M):
+        for m in re.finditer(r'<<\s*"(?:DRIFT|NOTE)",\s*(\d+),\s*(\d+),\s*"([^"]*)"\s*>>', out):
             self.notes.append({"run": int(m.group(1)), "line": int(m.group(2)), "what": m.group(3)})
 
     def coverage(self):
